@@ -3,5 +3,5 @@
 pub open spec fn not_builtin(r: Request) -> bool {
     (r.method@ == METHOD.get@ || r.method@ == METHOD.head@)
     && r.request_uri@ != slash() && r.request_uri@ != "/style.css"@ && r.request_uri@ != "/script.js"@ && r.request_uri@ != "/favicon.svg"@
-    && url_path_spec(request_url(r.request_uri@)) != Some("/form-get-method"@)
+    && target_path(r.request_uri@) != Some("/form-get-method"@)
 }
